@@ -1,7 +1,7 @@
 (* C03 - Turns last 1-4 steps; side, step counter and move number advance accordingly.
    Hypothesis move_no + 1 < 2^64: known finding F4 (C03_overflow_witness shows it cannot be dropped). *)
 From Coq Require Import NArith List Bool.
-From Arimaa Require Import Types U64 Board Engine Cells Rules Monitors Invariant TurnLemmas.
+From Arimaa Require Import Types U64 Board Engine Cells Rules Monitors Invariant TurnLemmas Counting.
 Open Scope N_scope.
 
 Theorem C03_step : forall s pp i d, ph s = PlayPhase pp -> step_of pp < 3 -> move_no s < P64 ->
@@ -39,3 +39,10 @@ Print Assumptions C03_range.
 Theorem C03_overflow_witness : wadd 18446744073709551615 1 = 0.
 Proof. exact move_number_wraps. Qed.
 Print Assumptions C03_overflow_witness.
+
+(* over whole games: after ANY sequence of offered actions from a play-phase state the move number is the starting move
+   number plus the number of Silver turn ends (no overflow assumed: F4) *)
+Theorem C03_count : forall l s pp, PlayInv s pp -> offered_run s l -> move_no s + silver_ends s l + 1 < P64 ->
+  move_no (fold_left take_action l s) = move_no s + silver_ends s l.
+Proof. exact move_count. Qed.
+Print Assumptions C03_count.
